@@ -172,7 +172,10 @@ class BezierCurve(BaseCurve):
         if times == 0:
             return
         mattrans, _ = Operations.degree_decrease(degree, times)
-        self.ctrlpoints = tuple(np.dot(mattrans, points))
+        newpoints = list(np.dot(mattrans, points))
+        # The end points stay the same objects: neighbours may share them
+        newpoints[0], newpoints[-1] = points[0], points[-1]
+        self.ctrlpoints = tuple(newpoints)
         return self
 
     def split(self, nodes: Tuple[float]) -> Tuple[BezierCurve]:
